@@ -720,7 +720,7 @@ class Interp:
                     s.log('len-jump', mid, old, new)
         return out
 
-    def trim(self, tag, depth=5):
+    def trim(self, tag, depth=8):
         """bound the nesting of provenance tags (they only feed the path log)"""
         if not isinstance(tag, tuple):
             return tag
@@ -737,6 +737,8 @@ class Interp:
             return ('tuple',) + tuple(self.tag_of(x) for x in v[1])
         if v[0] == 'ref':
             return ('ref', v[2])
+        if v[0] in ('oarr', 'oslice') and isinstance(v[1], tuple):
+            return self.trim(v[1])      # an array of user data keeps the provenance it came with
         return (v[0],)
 
     def rtag(self, st, v, depth=0):
